@@ -161,6 +161,8 @@ def gen_case(case):
     else:
         zl = rng.uniform(0.1, 1.0); zs = zl + rng.uniform(0.2, 2.0)
     zs2 = zs + rng.uniform(0.05, 1.5)
+    if rng.random() < 0.3:       # the second source IN FRONT of the first (legal: beta only needs both behind the lens)
+        zs2 = zl + rng.uniform(0.3, 0.9) * (zs - zl)
     za = float(rng.choice([0.1, 0.1, 0.05, 0.3, float(rng.uniform(0.02, min(zs, 1.0)))]))
     za = float(min(za, 0.9 * zs))   # anchor inside the tabulated range; the other situation is run_anchor_above_zmax
     fixed_key = None
@@ -288,7 +290,7 @@ def run_case(rec, inp):
 
     # ---- the five supply modes
     fixed_obj = astropy_of(model, p)
-    z_hi = zs2 * 1.02
+    z_hi = max(zs, zs2) * 1.02
     if inp["tab_from_zero"]:
         ztab = np.linspace(0.0, z_hi, inp["n_tab"])
     else:
@@ -298,7 +300,7 @@ def run_case(rec, inp):
     tab = dict(ang_diameter_distances=da_tab, redshifts=ztab)
     dh = C_KMS / p["h0"]
     tab_extra = dict(K=-p["ok"] / dh ** 2)   # lenstronomy convention: k = -Ok0/D_H^2 [Mpc^-2]
-    grid_interp = np.linspace(0, zs2, inp["num_interp"] + 1)   # z_max of the sample is z_source2
+    grid_interp = np.linspace(0, max(zs, zs2), inp["num_interp"] + 1)   # z_max of the sample is the largest source redshift
     grid_tab = ztab if ztab[0] == 0 else np.append(0.0, ztab)
     tol_interp = interp_bounds(p, grid_interp, zl, zs, zs2, za)
     tol_tab = interp_bounds(p, grid_tab, zl, zs, zs2, za)
@@ -467,6 +469,41 @@ def run_degenerate(rec, inp):
                       traceback.format_exc(limit=3), "finite positive distances")
 
 
+def run_highest_is_first_source(rec, case):
+    """the highest redshift of the whole sample is the FIRST source of a double-source-plane lens whose second source lies in front of it
+    (legal: both sources only have to be behind the lens): every interpolated supply mode must still cover it"""
+    from hierarc.Likelihood.cosmo_likelihood import CosmoLikelihood
+    rng = rng_of(case[0], 100 * int(case[1]) + int(case[2]))
+    model = MODELS[int(case[2]) % len(MODELS)]
+    p = model_params(model, rng, False)
+    zl = float(rng.uniform(0.2, 0.6)); zs1 = float(zl + rng.uniform(1.0, 2.5)); zs2 = float(zl + rng.uniform(0.3, 0.8) * (zs1 - zl))
+    ztd_l = float(rng.uniform(0.1, 0.4)); ztd_s = float(ztd_l + rng.uniform(0.2, 0.6))          # a time-delay lens that does NOT reach zs1
+    za = 0.1
+    inp = dict(case=[int(c) for c in case], model=model, params=p, td=[ztd_l, ztd_s], dspl=[zl, zs1, zs2], z_anchor=za, num_interp=100)
+    rec.case(dict(model=model, z=[zl, zs1, zs2]), kind="highest_is_first_source/" + model)
+    beta_ref = DA(zl, zs1, p) / DA(0, zs1, p) * DA(0, zs2, p) / DA(zl, zs2, p)
+    ddt_ref = (1 + ztd_l) * DA(0, ztd_l, p) * DA(0, ztd_s, p) / DA(ztd_l, ztd_s, p)
+    lenses = [dict(z_lens=ztd_l, z_source=ztd_s, likelihood_type="DdtGaussian", ddt_mean=ddt_ref, ddt_sigma=0.1 * ddt_ref),
+              dict(z_lens=zl, z_source=zs1, z_source2=zs2, likelihood_type="DSPL", beta_dspl=beta_ref, sigma_beta_dspl=0.05 * beta_ref)]
+    names = {"FLCDM": ["h0", "om"], "FwCDM": ["h0", "om", "w"], "w0waCDM": ["h0", "om", "w0", "wa"], "oLCDM": ["h0", "om", "ok"]}[model]
+    args = [p["w0"] if n == "w" else p[n] for n in names]
+    for mode in ("interp", "fixed_interp", "exact"):
+        try:
+            fx = astropy_of(model, p) if mode.startswith("fixed") else None
+            cl = CosmoLikelihood(lenses, model, {}, dict(BOUNDS), interpolate_cosmo=(mode != "exact"), num_redshift_interp=100, cosmo_fixed=fx)
+            cosmo = cl.cosmo_instance(cl.param.args2kwargs(args)[0])
+            beta = fscalar(cl._likelihoodLensSample._lens_list[1].beta_dsp(cosmo))
+            lnl = fscalar(cl.likelihood(args))
+        except Exception as e:
+            rec.violation("C05:raises:%s" % mode, "hierArc raised in supply mode %s (second source in front of the first, which is the highest redshift): %r" % (mode, e),
+                          dict(inp, mode=mode), traceback.format_exc(limit=3), "distances of the cosmology")
+            continue
+        tol = 1e-6 if mode == "exact" else 2e-3
+        rec.check(abs(beta - beta_ref) <= tol * abs(beta_ref), "C05:beta:%s:%s" % (model, mode), "beta differs from the Friedmann-integral reference",
+                  dict(inp, mode=mode, tol=tol), beta, beta_ref)
+        rec.check(np.isfinite(lnl), "C05:finite_positive:%s" % mode, "likelihood not finite", dict(inp, mode=mode), lnl, "finite")
+
+
 def main():
     a = parse_args(PROP)
     rec = Recorder(PROP, a.tier, a.seed, "hierArc distances (5 supply modes, 4 models) == quad-integrated Friedmann reference")
@@ -479,6 +516,8 @@ def main():
                 run_degenerate(rec, gen_degenerate(case))
             elif int(case[1]) == 3:
                 run_anchor(rec, gen_anchor(case))
+            elif int(case[1]) == 4:
+                run_highest_is_first_source(rec, case)
             else:
                 run_case(rec, gen_case(case))
         except Exception:
@@ -506,6 +545,11 @@ def main():
             run_anchor(rec, gen_anchor([a.seed, 3, i]))
         except Exception:
             rec.error("anchor %s: %s" % ([a.seed, 3, i], traceback.format_exc(limit=6)))
+    for i in range(8 if a.tier == "quick" else 48):
+        try:
+            run_highest_is_first_source(rec, [a.seed, 4, i])
+        except Exception:
+            rec.error("highest_is_first_source %s: %s" % ([a.seed, 4, i], traceback.format_exc(limit=6)))
     out = rec.write(a.out)
     print(json.dumps(dict(property=PROP, evaluations=out["evaluations"], violations=out["violation_counts"],
                           errors=len(out["errors"]), wall_s=out["wall_s"])))
